@@ -313,6 +313,22 @@ func (ex *Exec) typeID(t types.Type) *Term {
 	return ex.ts.Int(int64(ex.typeIDs[k]))
 }
 
+// mapIs records that the (non-nil) map reference m holds a map of Go type mt:
+// maps of different types are different objects, so an update of one cannot
+// change the (shared) cardinality entry of the other.
+func (ex *Exec) mapIs(m *Term, mt *types.Map) {
+	if m.IsLit() {
+		return
+	}
+	id := ex.typeID(mt)
+	k := -(m.ID*4096 + int(id.Int.Int64())%4096 + 1)
+	if ex.rangeSeen[k] {
+		return
+	}
+	ex.rangeSeen[k] = true
+	ex.assume(ex.ts.True(), ex.ts.Implies(ex.ts.Neq(m, ex.ts.Int(0)), ex.ts.Eq(ex.uf("maptype", SInt, m), id)))
+}
+
 func (ex *Exec) strLit(s string) *Term {
 	if s == "" {
 		return ex.ts.Int(0)
